@@ -639,3 +639,55 @@ func (s *sess) execute(a kv, c cmd.Command, then func()) (error, bool) {
 	}
 	return fmt.Errorf("exit status %d", ee.ExitCode()), false
 }
+
+func init() {
+	// clirawsum q=<query template> : GET /sum?<query> on the real server, the query taken as it is (see
+	// clirawview).  What the item and pattern of the query match under the served root is reported as the glob
+	// oracle of the model (files relative to the case directory).
+	handlers["clirawsum"] = func(s *sess, tk []string) {
+		s.closeAll()
+		q := strings.TrimPrefix(strings.Join(tk[1:], " "), "q=")
+		if q == "-" {
+			q = ""
+		}
+		prefix := filepath.Base(s.dir)
+		q = strings.ReplaceAll(q, "CASEDIR", prefix)
+		q = tsToken.ReplaceAllStringFunc(q, func(m string) string {
+			n, _ := strconv.ParseInt(tsToken.FindStringSubmatch(m)[1], 10, 64)
+			return wt.Timestamp(uint32(n)).String()
+		})
+		item, pattern, files := "", "", "-"
+		if v, err := url.ParseQuery(q); err == nil {
+			item, pattern = v.Get("item"), v.Get("pattern")
+			if item != "" && pattern != "" {
+				m, gerr := filepath.Glob(filepath.Join(s.root, strings.ReplaceAll(item, ".", "/"), pattern))
+				if gerr != nil {
+					files = "BADPATTERN"
+				} else {
+					var rel []string
+					for _, p := range m {
+						if r, err := filepath.Rel(s.dir, p); err == nil && !strings.HasPrefix(r, "..") {
+							rel = append(rel, r)
+						} else {
+							rel = append(rel, "OUTSIDE")
+						}
+					}
+					files = csvOrDash(rel)
+				}
+			}
+		}
+		s.echo(fmt.Sprintf("clirawsum q=%s item=%s pattern=%s files=%s", hexStr(q), hexStr(item), hexStr(pattern), files))
+		u, err := url.Parse(s.serverURL() + "/sum")
+		must(err)
+		u.RawQuery = q
+		req := &http.Request{Method: "GET", URL: u, Header: http.Header{}, Host: u.Host}
+		resp, err := http.DefaultClient.Do(req)
+		if err != nil {
+			s.obs("clirawsum transport-error")
+			return
+		}
+		defer resp.Body.Close()
+		data, _ := io.ReadAll(resp.Body)
+		s.showWire("clirawsum", resp.StatusCode, data)
+	}
+}
